@@ -65,7 +65,8 @@ def scalar_arg(B, v):
         return (v,), {}
     if k == 'bits':
         n, x = v
-        return (), {'binValue': format(x, '0%db' % n) if n else ''}
+        # positional binary string (a binValue= keyword is ignored when cloning from a value object)
+        return (format(x, '0%db' % n) if n else '',), {}
     if k in ('octs', 'any'):
         return (bytes(v),), {}
     if k == 'null':
@@ -191,7 +192,14 @@ def pytree(T, v, native_style=False):
     if k == 'oid':
         return '.'.join(str(a) for a in v)
     if k == 'real':
-        return real_float(v)
+        if native_style:
+            return real_float(v)
+        # exact: the (mantissa, base, exponent) triple the Real type accepts
+        if v == 0:
+            return (0, 10, 0)
+        if v in ('inf', '-inf'):
+            return float(v)
+        return (v[1], v[2], v[3])
     if k in ('char', 'useful'):
         return v
     if k in ('seq', 'set'):
@@ -204,6 +212,7 @@ def pytree(T, v, native_style=False):
 
 
 def real_float(v):
+    """Correctly rounded float image of a real value."""
     if v == 0:
         return 0.0
     if v == 'inf':
@@ -211,8 +220,9 @@ def real_float(v):
     if v == '-inf':
         return float('-inf')
     _, m, b, e = v
+    from fractions import Fraction
     try:
-        return float(m) * float(b) ** e
+        return float(Fraction(m) * Fraction(b) ** e)
     except OverflowError:
         return float('inf') if m > 0 else float('-inf')
 
